@@ -263,6 +263,8 @@ pub fn table() -> Vec<Flow> {
         f1!(f_bounded_count_cross, false, Seq, |i| vl(xs(i).into_iter().map(|x| vp(x, 3)).collect()))
             .c28()
             .c29(),
+        f1!(f_bounded_fold_chain, false, Seq, |i| seq([3].into_iter().chain(xs(i)))).c28().c29(),
+        f1!(f_bounded_reduce_chain, false, Seq, |i| seq([18].into_iter().chain(xs(i)))).c28().c29(),
         f1!(f_flat_unordered, false, Bag, |i| bag(xs(i).into_iter().flat_map(|x| [vi(x), vi(-x)]).collect()))
             .c28(),
         f1!(f_tee_merge, false, Bag, |i| bag(xs(i).into_iter().flat_map(|x| [vi(x + 100), vi(x)]).collect()))
